@@ -18,6 +18,15 @@ type plan struct {
 	Depth   int
 	SeedDep int // depth from the non-initial seeds
 	Seeds   []string
+	// SeedsOf restricts the seed states of single configurations (key: Config.String()); absent = Seeds
+	SeedsOf map[string][]string
+}
+
+func (p *plan) seedsFor(cfg Config) []string {
+	if s, ok := p.SeedsOf[cfg.String()]; ok {
+		return s
+	}
+	return p.Seeds
 }
 
 func planFor(prop, tier string) plan {
@@ -69,6 +78,9 @@ func planFor(prop, tier string) plan {
 			// stored current tick is the price's tick rounded DOWN to the spacing, and ranges 1/2/5 have boundaries on the
 			// two neighbouring multiples
 			p.Configs = append(p.Configs, Config{TickSpacing: 100, SpreadFactor: "0.001", Scaled: true, First0: 10000000000, First1: 9999537500, RangeUnit: 100})
+			// 18-decimal tokens (every amount of the scenario x 1e18; the walker-synthesised crossing swaps are carried in
+			// real base units): C07's oracle is exact bookkeeping and does not depend on the amount scale
+			p.Configs = append(p.Configs, Config{TickSpacing: 100, SpreadFactor: "0.003", Scaled: true, First0: 1000000, First1: 1000000, RangeUnit: 100, Exp10: 18})
 		}
 		if quick {
 			p.Depth, p.SeedDep = 3, 2
@@ -106,6 +118,14 @@ func planFor(prop, tier string) plan {
 		if quick {
 			p.Depth, p.SeedDep = 2, 2
 			p.Configs = append(p.Configs, Config{TickSpacing: 1, SpreadFactor: "0.005", Scaled: true, First0: 1000000, First1: 1000000, RangeUnit: 10})
+			// 18-decimal tokens (reserves of 1e24 / 5e27 base units): the Dec roundings of the spread charge are worth more
+			// than the whole-unit round-ups that hide them at 6-decimal scale
+			second := Config{TickSpacing: 1, SpreadFactor: "0.0005", Scaled: false, First0: 1000000, First1: 5000000000, RangeUnit: 50, Exp10: 18}
+			p.Configs = append(p.Configs,
+				Config{TickSpacing: 100, SpreadFactor: "0.003", Scaled: true, First0: 1000000, First1: 1000000, RangeUnit: 100, Exp10: 18},
+				second)
+			// cost: the second one is explored from two of the three seed states
+			p.SeedsOf = map[string][]string{second.String(): {"init", "overlap"}}
 		} else {
 			p.Depth, p.SeedDep = 3, 2
 			p.Configs = nil
@@ -121,6 +141,20 @@ func planFor(prop, tier string) plan {
 						Config{TickSpacing: ts, SpreadFactor: sf, Scaled: true, First0: 1000000000000, First1: 1000, RangeUnit: u})
 				}
 			}
+			// 18-decimal tokens: every non-zero authorised spread factor, both accumulator-scaling sides, the three price
+			// regimes (reserves 1e24 .. 1e30 base units), both tick spacings
+			for i, sf := range []string{"0.0001", "0.0005", "0.001", "0.002", "0.003", "0.005"} {
+				ts, u := uint64(100), int64(100)
+				if i%2 == 1 {
+					ts, u = 1, 20
+				}
+				firsts := [][2]int64{{1000000, 1000000}, {1000000, 5000000000}, {1000000000000, 1000}}
+				f := firsts[i%3]
+				p.Configs = append(p.Configs, Config{TickSpacing: ts, SpreadFactor: sf, Scaled: i%2 == 0, First0: f[0], First1: f[1], RangeUnit: u, Exp10: 18})
+			}
+			p.Configs = append(p.Configs,
+				Config{TickSpacing: 100, SpreadFactor: "0.003", Scaled: false, First0: 1000000, First1: 5000000000, RangeUnit: 100, Exp10: 18},
+				Config{TickSpacing: 1, SpreadFactor: "0", Scaled: true, First0: 1000000, First1: 1000000, RangeUnit: 20, Exp10: 18})
 		}
 	default:
 		fmt.Fprintln(os.Stderr, "cl: unknown property", prop)
@@ -261,6 +295,20 @@ func main() {
 		return
 	}
 	pl := planFor(f.Prop, f.Tier)
+	// development aids: VERIF_CL_UNIT_SCALE_ONLY=1 drops the configurations that have an amount scale (Exp10 != 0), to
+	// compare counts with evidence that predates them; VERIF_CL_AMOUNT_SCALE_ONLY=1 keeps only those
+	if u, a := os.Getenv("VERIF_CL_UNIT_SCALE_ONLY") != "", os.Getenv("VERIF_CL_AMOUNT_SCALE_ONLY") != ""; u || a {
+		var keep []Config
+		for _, c := range pl.Configs {
+			if (c.Exp10 == 0) == u {
+				keep = append(keep, c)
+			}
+		}
+		pl.Configs = keep
+		if u {
+			pl.SeedsOf = nil
+		}
+	}
 	allSeen := core.NewSeen()
 	var cfgNames []string
 	for _, cfg := range pl.Configs {
@@ -272,7 +320,7 @@ func main() {
 			Apply:   w.Apply,
 			Check:   checker(w, f.Prop, r),
 		}
-		for _, seed := range pl.Seeds {
+		for _, seed := range pl.seedsFor(cfg) {
 			ctx, l, err := buildSeed(w, seed)
 			if err != nil {
 				// a seed that cannot be built in this configuration is skipped, visibly
@@ -284,7 +332,11 @@ func main() {
 			if seed == "init" || seed == "empty" {
 				d = pl.Depth
 			}
+			t0, s0 := r.Transitions, r.States
 			ex.Run(seed, ctx, l, d)
+			if os.Getenv("VERIF_DEBUG") != "" {
+				fmt.Fprintf(os.Stderr, "cost: %s seed=%s transitions=%d states=%d\n", cfg, seed, r.Transitions-t0, r.States-s0)
+			}
 			for k := range ex.Seen {
 				var h [32]byte
 				copy(h[:], k[:])
@@ -299,6 +351,9 @@ func main() {
 	r.Extra["configurations"] = cfgNames
 	r.Extra["alphabet"] = describeAlphabet(&pl.Alpha)
 	r.Extra["seeds"] = pl.Seeds
+	if len(pl.SeedsOf) > 0 {
+		r.Extra["seeds_of_configuration"] = pl.SeedsOf
+	}
 	r.Outcomes = int64(len(r.Rejected) + 1)
 	core.Finish(f, r)
 }
